@@ -9,3 +9,7 @@ import SpqProofs.Properties.C13
 import SpqProofs.Properties.C15
 import SpqProofs.Properties.C17
 import SpqProofs.Properties.C18
+import SpqProofs.Properties.C07
+import SpqProofs.Properties.C10
+import SpqProofs.Properties.C16
+import SpqProofs.Properties.Bridge
